@@ -1,4 +1,5 @@
 """C07 — cancelling a booking takes effect and stays in effect, whatever races with it"""
+from relaymain import RelayMainMode, RELAYMAIN_RULE
 from tiecommon import TIE_DENY, TIE_TTLCODE, TIE_CHANMAP, TIE_ACCESS, TIE_NOTE, TIE_ASSUMPTION
 import re
 import c10
@@ -33,6 +34,8 @@ POINT_OF_KIND = {"session": ["session.checked", "session.allowed", "session.mint
 THEOREMS = THEOREMS + TIE_DENY + TIE_TTLCODE + TIE_CHANMAP + TIE_ACCESS
 RULE = TIE_NOTE + RULE
 ASSUMPTIONS = ASSUMPTIONS + [TIE_ASSUMPTION]
+
+RULE = RULE + RELAYMAIN_RULE
 
 
 
@@ -183,4 +186,4 @@ class SchedMode(vlib.Mode):
 
 def modes(tier):
     # the register histories of C10 run here too: "refused until the expiry given in the deny request" is the register's business
-    return [SchedMode(), RelayMode("C07"), c10.DenyMode()]
+    return [SchedMode(), RelayMode("C07"), c10.DenyMode(), RelayMainMode("C07", 3)]
